@@ -30,8 +30,9 @@ RULES = {
     'R13': 'a descriptor whose callback asks to be removed (negative return) leaves the polling driver as well: on that edge the driver\'s del is called (unless the callback has deleted the entry itself) before the entry is marked deleted - a descriptor that stays open would stay in the kernel\'s set, be reported in every iteration and be refused when added again',
     'R14': 'a signal callback may delete its own registration: the delivery being dispatched is noted, qb_loop_signal_del detaches it (clears its cloned_from), and after the callback the registration is dereferenced only where it is still attached',
     'R15': 'a full table is an error, not an abort: where an add asks a helper for a free slot and the helper can hand back the (negative) result of the failed table growth, that result is tested before it is used as a slot index - in the descriptor add and in the timer add (the table holds 65536 entries; slots of deleted descriptors come back only at the next poll)',
+    'R16': 'jobs of one priority run in the order they were added (= C10.R3): items are appended at the tail of their level, waiting jobs are spliced to the tail, the dispatcher takes from the head',
 }
-FLOORS = {'R1': 6, 'R2': 6, 'R3': 12, 'R4': 9, 'R5': 3, 'R6': 7, 'R7': 1, 'R8': 2, 'R9': 1, 'R10': 1, 'R11': 2, 'R12': 2, 'R13': 1, 'R14': 3, 'R15': 2}
+FLOORS = {'R16': 4, 'R1': 6, 'R2': 6, 'R3': 12, 'R4': 9, 'R5': 3, 'R6': 7, 'R7': 1, 'R8': 2, 'R9': 1, 'R10': 1, 'R11': 2, 'R12': 2, 'R13': 1, 'R14': 3, 'R15': 2}
 
 
 def run(ctx):
@@ -53,6 +54,14 @@ def run(ctx):
     r14(ctx)
     todo_accounting(ctx, 'R1')
     r15(ctx)
+    # R16 = C10.R3: jobs of one priority run in the order they were added - appended at the tail, promoted to the tail, taken from the head
+    from rules import c10
+    pr = ctx.prog.enum('qb_loop_priority')
+    sub = type(ctx)(ctx.prog, ctx.prop, ctx.tier, ctx.depth)
+    c10.r3(sub, [pr['QB_LOOP_LOW'], pr['QB_LOOP_MED'], pr['QB_LOOP_HIGH']])
+    for r in sub.results:
+        r['rule'] = 'R16'
+        ctx.results.append(r)
 
 
 def r1(ctx):
